@@ -35,6 +35,13 @@ type VfStore struct {
 	Hook    func(kind, name string) // optional interference window, called at the start of every API call
 	Tick    func(kind, name string) error // if set, replaces the built-in fault counter (shared fault budget of a larger world)
 	Observe func(kind string, old, new *v1alpha1.FloatingIP) // called right before an effective create/update/delete
+	After   func(kind, name string)                          // called when an API call returns (second kind of interference window)
+}
+
+func (s *VfStore) after(kind, name string) {
+	if s.After != nil {
+		s.After(kind, name)
+	}
 }
 
 func VfNewStore() *VfStore { return &VfStore{Objs: map[string]*v1alpha1.FloatingIP{}} }
@@ -95,6 +102,7 @@ type vfFIPs struct {
 }
 
 func (f *vfFIPs) Create(ctx context.Context, obj *v1alpha1.FloatingIP, opts metav1.CreateOptions) (*v1alpha1.FloatingIP, error) {
+	defer f.Store.after("create", obj.Name)
 	if err := f.Store.fault("create", obj.Name); err != nil {
 		return nil, err
 	}
@@ -109,6 +117,7 @@ func (f *vfFIPs) Create(ctx context.Context, obj *v1alpha1.FloatingIP, opts meta
 }
 
 func (f *vfFIPs) Update(ctx context.Context, obj *v1alpha1.FloatingIP, opts metav1.UpdateOptions) (*v1alpha1.FloatingIP, error) {
+	defer f.Store.after("update", obj.Name)
 	if err := f.Store.fault("update", obj.Name); err != nil {
 		return nil, err
 	}
@@ -124,6 +133,7 @@ func (f *vfFIPs) Update(ctx context.Context, obj *v1alpha1.FloatingIP, opts meta
 }
 
 func (f *vfFIPs) Delete(ctx context.Context, name string, opts metav1.DeleteOptions) error {
+	defer f.Store.after("delete", name)
 	if err := f.Store.fault("delete", name); err != nil {
 		return err
 	}
@@ -139,6 +149,7 @@ func (f *vfFIPs) Delete(ctx context.Context, name string, opts metav1.DeleteOpti
 }
 
 func (f *vfFIPs) Get(ctx context.Context, name string, opts metav1.GetOptions) (*v1alpha1.FloatingIP, error) {
+	defer f.Store.after("get", name)
 	if err := f.Store.fault("get", name); err != nil {
 		return nil, err
 	}
@@ -150,6 +161,7 @@ func (f *vfFIPs) Get(ctx context.Context, name string, opts metav1.GetOptions) (
 }
 
 func (f *vfFIPs) List(ctx context.Context, opts metav1.ListOptions) (*v1alpha1.FloatingIPList, error) {
+	defer f.Store.after("list", "")
 	if err := f.Store.fault("list", ""); err != nil {
 		return nil, err
 	}
@@ -391,7 +403,7 @@ func VerifDump(i IPAM, ips []string) []VerifEntry {
 		}
 		if f != nil && f.pool != nil {
 			e.NodeSubnets = f.pool.nodeSubnets.List()
-			e.Mask, e.Gateway, e.Vlan = net.IP(f.pool.Mask).String(), f.pool.Gateway.String(), f.pool.Vlan
+			e.Mask, e.Gateway, e.Vlan = f.pool.Mask.String(), f.pool.Gateway.String(), f.pool.Vlan
 		}
 		out[k] = e
 	}
